@@ -9,6 +9,7 @@ package hsim
 // decoder on the same bytes.
 
 import (
+	"os"
 	"errors"
 	"fmt"
 	"io"
@@ -193,6 +194,9 @@ func scenC05(r *Run) {
 	r.Param("kinds", strings.Join(kinds, ","))
 	r.Param("len", len(stream))
 	r.Param("ref_mode", refMode)
+	if r.Opt["dump"] != "" {
+		fmt.Fprintf(os.Stderr, "DUMP kinds=%v ref_mode=%v stream=%q\n", kinds, refMode, stream)
+	}
 	ref := decodeAll(hio.NewDecoder(stream).Simple(!refMode), mks)
 	if ref.panicAt != "" {
 		r.Fail("C05:in-memory-decode-panicked:"+ref.panicAt, "stream %q", stream)
@@ -219,6 +223,9 @@ func scenC05(r *Run) {
 			dec = hio.NewDecoderFromReader(rd)
 		}
 		dec.Simple(!refMode)
+		if r.Opt["dump"] != "" {
+			fmt.Fprintf(os.Stderr, "TRY %s buffer %d pooled %v\n", desc, bufSize, pooled)
+		}
 		got := decodeAll(dec, mks)
 		cases++
 		if rd.reads > 2 {
